@@ -982,6 +982,10 @@ class Interpreter(BaseInterpreter[TContext, TEvent]):
                 `services` logic is not a valid `MachineNode` or an async
                 factory function that returns one.
         """
+        # 🛑 An actor spawned by the tail of a macrostep that was still in
+        #    flight when `stop()` ran would outlive it: nothing stops it later.
+        if self.status == "stopped":
+            return
         logger.info("👶 Spawning actor for action: '%s'", action_def.type)
         actor_machine_key = spawn_service_key(action_def.type)
 
@@ -1018,6 +1022,9 @@ class Interpreter(BaseInterpreter[TContext, TEvent]):
         #    but could no longer be addressed, stopped by `stopChild`, or
         #    reached by the parent's own `stop()`.
         await self._retire_actor(actor_id)
+        if self.status == "stopped":
+            # 🛑 `stop()` ran while the previous holder of the id was retired.
+            return
         child_interpreter = Interpreter(actor_machine)
         child_interpreter.parent = self
         child_interpreter.id = actor_id
@@ -1030,6 +1037,12 @@ class Interpreter(BaseInterpreter[TContext, TEvent]):
             spawn_params.get("systemId"), child_interpreter
         )
         await child_interpreter.start()
+        if self.status == "stopped":
+            # 🛑 `stop()` ran while the child was starting and could not see
+            #    it yet: tear it down here instead of registering a zombie.
+            self._unregister_from_system(child_interpreter)
+            await child_interpreter.stop()
+            return
 
         self._actors[actor_id] = child_interpreter
         self._actor_sources[actor_id] = actor_machine_key
